@@ -208,6 +208,7 @@ func init() {
 			{"keyed-insert", "find-or-replace before append on keyed collections", func(r *Run) { ruleKeyedInsert(r, nil) }},
 			{"kind-injective", "getFileNameForType maps kinds to distinct constants", ruleKindInjective},
 			{"ref-flow", "reference id = relationship id", ruleRefFlowHF},
+			{"rel-keep", "the reader keeps every relationship of the main part: the (newest) relationship a header/footer reference resolves through is not dropped on reopen", filtered(rulePartPass, "rel-keep")},
 			{"rel-attach (header/footer)", "every header/footer relationship the Add* calls create is added to the document's relationship list on every path and targets the part written in the same call", filtered(ruleRelAttach, ":header", ":footer")},
 			{"clone-alias", "rendered documents do not share header/footer reference objects with the template", ruleCloneAliasFor("SectionProperties", "HeaderFooterReference", "FooterReference")},
 			{"alloc-scans-all", "the relationship id allocator's scanning loop has no early exit", ruleAllocScansAll},
@@ -301,6 +302,8 @@ func init() {
 			{"nested-untainted", "nested loop expansion happens before the item's scalar fields are substituted (data-flow)", ruleNestedUntainted},
 			{"token-agreement", "block openers are recognised by the compiled pattern only (no second hand-written recogniser)", ruleTokenAgreement},
 			{"scope-precedence", "a scope map filled from a loop item and from the outer variables lets the item's fields win", ruleScopePrecedence},
+			{"load-parses", "every successful return of LoadTemplate / LoadTemplateFromDocument has passed the parse step that links the template to its parent", ruleLoadParses},
+			{"line-verbatim", "the run text created for a rendered line is the line itself (no trimming on the data path)", ruleLineVerbatim},
 			{"pass-unconditional", "no directive pass of renderTemplate is skipped under a condition on the Template object (its own parse) rather than on the rendered text", rulePassUnconditional},
 			{"cross-call-state", "the engine keeps no render results between calls except its guarded template cache", ruleCrossCallStateEngine},
 		},
@@ -314,6 +317,7 @@ func init() {
 			{"lock", "lock discipline on TemplateEngine fields", ruleLock},
 			{"publish-immut", "published templates are immutable", rulePublishImmut},
 			{"render-pure", "rendering writes only the clone", ruleRenderPure},
+			{"load-parses", "every successful template load has passed the parse step: the parent link is the one of this load, not of an earlier one", ruleLoadParses},
 			{"clone-pure", "clone functions do not write their source", ruleClonePure},
 			{"render-cache-free", "the rendering of a looked-up template never consults the template cache again (reachability)", ruleRenderCacheFree},
 			{"clone-alias", "the clone shares no library-mutable object with the base document", ruleCloneAliasFor()},
